@@ -318,6 +318,20 @@ def boundary_walk(g):
     boundary of a backward read is the greatest key of the partition (here also of the whole table), of a forward read the
     smallest; what remains is still returned completely"""
     r = g.r
+    if r.random() < 0.25:
+        # a hash-only table that holds the empty string as a key: it is the first entry, and it names a position like any other
+        base = dict(client="c", table="tbl")
+        ops = [dict(op="add_table", client="c", table="tbl", hash="h", range="")]
+        for k in [""] + r.sample(["a", "b", "c", "d"], r.randrange(2, 5)):
+            ops.append(dict(op="put", item={"h": S(k), "g": S("x")}, **base))
+        rd = dict(op="scan", limit=r.choice([1, 1, 2]), **base)
+        ops.append(rd)
+        for _ in range(5):
+            if r.random() < 0.75: ops.append(dict(op="delete", key={"$lek": len(ops) - 1, "attrs": ["h"]}, **base))
+            nxt = json.loads(json.dumps(rd)); nxt["esk"] = {"$lek": len(ops) - 1 if ops[-1]["op"] != "delete" else len(ops) - 2}
+            ops.append(nxt)
+        ops.append(dict(op="scan", **base))
+        return ops
     ops = [dict(op="add_table", client="c", table="tbl", hash="h", range="r")]
     base = dict(client="c", table="tbl")
     part = r.choice(["p", "z", "z", "z", "a"])          # "z": the partition with the greatest key strings of the table
@@ -348,6 +362,11 @@ def page_script(g):
     else:
         t, ops = g.create_ops("c", "tbl")
         ops += populate(g, t, nmin=3, nmax=10)
+        kattr = [a for a, ty in [t["schema"]["hash"]] + ([t["schema"]["range"]] if t["schema"]["range"] else []) if ty != "S"]
+        if kattr and r.random() < 0.3:
+            # an attempt to re-type a key attribute of the table (the AddIndex helper declares strings): refused, and the
+            # LastEvaluatedKeys of the table keep being accepted as start keys
+            ops.append(dict(op="add_index", client="c", table="tbl", index="byk", hash="g", range=kattr[0]))
     base = dict(client="c", table="tbl")
     for _ in range(r.randrange(2, 5)):
         op = read_op(g, t, paged=True)
@@ -486,7 +505,10 @@ def failing_script(g):
             h = r.choice(["a", "b", "c", "d"])
             e, vs = r.choice([("SET g = :s", {":s": S("z")}), ("SET g = :n", {":n": N("8")}), ("REMOVE g", {}), ("SET f = :s", {":s": S("q")}),
                               ("SET g = :s, f = :n", {":s": S("z"), ":n": N("2")}), ("SET f = :n", {":n": N("3")}), ("SET v = :s", {":s": S("w")})])
-            ops.append(dict(op="update", key={"h": S(h)}, expr=e, names={}, values=vs, **base))
+            q = r.random()
+            if q < 0.2: ops.append(dict(op="delete", key={"h": S(h)}, return_old=r.random() < 0.5, **base))
+            elif q < 0.3: ops.append(dict(op="batch_write", client="c", requests={"tbl": [dict(put={"h": S("n%d" % len(ops)), "g": S("q")}), dict(delete={"h": S(h)})]}))
+            else: ops.append(dict(op="update", key={"h": S(h)}, expr=e, names={}, values=vs, **base))
             ops.append(dict(op="get", key={"h": S(h)}, **base))
             if r.random() < 0.5: ops.append(dict(op="scan", index="gix", **base))
         ops.append(dict(op="scan", **base))
@@ -556,6 +578,11 @@ def values_script(g):
             it[r.choice(["ns", "deep"])] = ns if r.random() < 0.6 else {"L": [ns]}
         ops.append(dict(op="put", client="c", table="tbl", item=it))
         ops.append(dict(op="get", client="c", table="tbl", key={"h": it["h"]}))
+        if r.random() < 0.3:
+            # a copy of one attribute made by an update expression, then the whole item is read again
+            src = r.choice(sorted(a for a in it if a != "h"))
+            ops.append(dict(op="update", client="c", table="tbl", key={"h": it["h"]}, expr="SET cp = " + src, names={}, values={}))
+            ops.append(dict(op="get", client="c", table="tbl", key={"h": it["h"]}))
         if r.random() < 0.3:
             # an update of ANOTHER attribute, then the whole item is read again
             ops.append(dict(op="update", client="c", table="tbl", key={"h": it["h"]}, expr="SET touched = :t", names={}, values={":t": S("yes")}))
@@ -779,7 +806,13 @@ def batch_script(g):
             l.append({"put": g.item_of(tt)} if r.random() < 0.6 else {"delete": g.key_of(tt["schema"], exact=r.random() < 0.8)})
         if r.random() < 0.08: reqs[tabs[0]["name"]] = [{"put": g.item_of(tabs[0])} for _ in range(r.choice([25, 26]))]
         if r.random() < 0.05: reqs.setdefault(tabs[0]["name"], []).append({})
+        failing = r.random() < 0.15
+        if failing: ops.append(dict(op="emulate_failure", client="c", cond="internal_server"))
         ops.append(dict(op="batch_write", client="c", requests=reqs))
+        if failing:
+            # every request comes back as unprocessed; once the failure is over the same batch is submitted again
+            ops.append(dict(op="emulate_failure", client="c", cond="none"))
+            ops.append(dict(op="batch_write", client="c", requests=reqs))
         for t in tabs: ops.append(dict(op="scan", client="c", table=t["name"]))
         greq = {}
         for _ in range(r.randrange(1, 5)):
